@@ -488,6 +488,9 @@ class Gen:
                 fnodes.append(self.fill_node(inner_scope, owner, depth + 1, nm, slot_decl))
             if self.on("negative") and ch.chance(1, 6, "text_beside_fills"):
                 fnodes.insert(ch.draw(len(fnodes) + 1, "tbf_pos"), ["text", self.tok()])
+            if self.P.get("includes") and not self.on("negative") and ch.chance(1, self.P["includes"], "fills_via_include"):
+                # the {% fill %} tags of this component tag arrive through {% include %} of a partial that holds them
+                fnodes = [["include", None, None, fnodes]]
             node = ["comp", cd["name"], kwargs, only, "fills", fnodes, dyn]
         return node
 
